@@ -8,18 +8,21 @@ open Tmv.Query
 /-! ### the intersection loop -/
 
 /-- one round of `match`/`matchRange`'s tail on the set of candidates -/
-def interStep {α : Type} [DecidableEq α] (st : Option (List α)) (hs : List α) : Option (List α) :=
-  if st = some [] then st else applyScan st hs
+def interStep {α : Type} [BEq α] [LawfulBEq α] (st : Option (List α)) (hs : List α) : Option (List α) :=
+  if st == some [] then st else applyScan st hs
 
-def interFold {α : Type} [DecidableEq α] (st : Option (List α)) (hss : List (List α)) :
+def interFold {α : Type} [BEq α] [LawfulBEq α] (st : Option (List α)) (hss : List (List α)) :
     Option (List α) := hss.foldl interStep st
 
-theorem interStep_some {α : Type} [DecidableEq α] (L hs : List α) :
+theorem interStep_some {α : Type} [BEq α] [LawfulBEq α] (L hs : List α) :
     ∃ L', interStep (some L) hs = some L' ∧ ∀ x, x ∈ L' ↔ x ∈ L ∧ x ∈ hs := by
   unfold interStep
   by_cases hL : L = []
   · subst hL; exact ⟨[], by simp, by simp⟩
-  · have h1 : ¬ (some L = some ([] : List α)) := by simpa using hL
+  · have h1 : (some L == some ([] : List α)) = false := by
+      cases L with
+      | nil => exact absurd rfl hL
+      | cons a l => simp
     have h2 : L.isEmpty = false := by cases L <;> simp_all
     simp only [h1, if_false, applyScan, h2, Bool.false_eq_true]
     by_cases hh : hs.isEmpty = true
@@ -29,7 +32,7 @@ theorem interStep_some {α : Type} [DecidableEq α] (L hs : List α) :
     · simp only [hh, if_false]
       exact ⟨_, rfl, by intro x; simp [List.mem_filter]⟩
 
-theorem interFold_some {α : Type} [DecidableEq α] (hss : List (List α)) (L : List α) :
+theorem interFold_some {α : Type} [BEq α] [LawfulBEq α] (hss : List (List α)) (L : List α) :
     ∃ L', interFold (some L) hss = some L' ∧ ∀ x, x ∈ L' ↔ x ∈ L ∧ ∀ hs ∈ hss, x ∈ hs := by
   induction hss generalizing L with
   | nil => exact ⟨L, rfl, by simp⟩
@@ -41,21 +44,403 @@ theorem interFold_some {α : Type} [DecidableEq α] (hss : List (List α)) (L : 
     rw [m', m1]
     simp only [List.mem_cons, forall_eq_or_imp, and_assoc]
 
-theorem interFold_none {α : Type} [DecidableEq α] (hss : List (List α)) (hne : hss ≠ []) :
+theorem interFold_none {α : Type} [BEq α] [LawfulBEq α] (hss : List (List α)) (hne : hss ≠ []) :
     ∃ L', interFold none hss = some L' ∧ ∀ x, x ∈ L' ↔ ∀ hs ∈ hss, x ∈ hs := by
   cases hss with
   | nil => exact absurd rfl hne
   | cons hs rest =>
     have e1 : interStep (none : Option (List α)) hs = some hs.eraseDups := by
-      simp [interStep, applyScan]
+      have : ((none : Option (List α)) == some []) = false := rfl
+      simp [interStep, applyScan, this]
     obtain ⟨L', e', m'⟩ := interFold_some rest hs.eraseDups
     refine ⟨L', by simp only [interFold, List.foldl_cons, e1]; exact e', ?_⟩
     intro x
     rw [m']
     simp only [List.mem_eraseDups, List.mem_cons, forall_eq_or_imp]
 
-theorem interFold_append {α : Type} [DecidableEq α] (st : Option (List α)) (a b : List (List α)) :
+theorem interFold_append {α : Type} [BEq α] [LawfulBEq α] (st : Option (List α)) (a b : List (List α)) :
     interFold (interFold st a) b = interFold st (a ++ b) := by
   simp [interFold, List.foldl_append]
+
+
+/-! ### `LookForRanges` -/
+
+/-- the interval `LookForRanges` ends up with for key `k`: the key's conditions folded in order -/
+def rangeOf (cs : List Cond) (k : Str) : QRange :=
+  cs.foldl (fun r c => if c.key = k then updRange c r else r) { key := k }
+
+theorem updRange_key (c : Cond) (r : QRange) : (updRange c r).key = r.key := by
+  unfold updRange; split <;> rfl
+
+theorem rangeOf_snoc (cs : List Cond) (c : Cond) (k : Str) :
+    rangeOf (cs ++ [c]) k = if c.key = k then updRange c (rangeOf cs k) else rangeOf cs k := by
+  simp [rangeOf, List.foldl_append]
+
+theorem rangeOf_key (cs : List Cond) (k : Str) : (rangeOf cs k).key = k := by
+  have : ∀ (r0 : QRange), (cs.foldl (fun r c => if c.key = k then updRange c r else r) r0).key = r0.key := by
+    induction cs with
+    | nil => intro r0; rfl
+    | cons c rest ih =>
+      intro r0
+      simp only [List.foldl_cons]
+      rw [ih]
+      split
+      · exact updRange_key c r0
+      · rfl
+  exact this _
+
+theorem rangeOf_fresh (cs : List Cond) (k : Str) (h : ∀ c ∈ cs, c.key ≠ k) :
+    rangeOf cs k = { key := k } := by
+  have : ∀ (r0 : QRange), (cs.foldl (fun r c => if c.key = k then updRange c r else r) r0) = r0 := by
+    induction cs with
+    | nil => intro r0; rfl
+    | cons c rest ih =>
+      intro r0
+      simp only [List.foldl_cons, if_neg (h c List.mem_cons_self)]
+      exact ih (fun c' hc' => h c' (List.mem_cons_of_mem _ hc')) r0
+  exact this _
+
+/-- what the list built by `LookForRanges` is: one interval per key that has a condition, each
+the fold of its key's conditions -/
+structure RangesOf (rs : List QRange) (cs : List Cond) : Prop where
+  nodup : (rs.map (·.key)).Nodup
+  isFold : ∀ r ∈ rs, r = rangeOf cs r.key
+  covers : ∀ c ∈ cs, ∃ r ∈ rs, r.key = c.key
+  onlyKeys : ∀ r ∈ rs, ∃ c ∈ cs, c.key = r.key
+
+theorem addRange_spec (rs : List QRange) (cs : List Cond) (c : Cond) (h : RangesOf rs cs) :
+    RangesOf (addRange rs c) (cs ++ [c]) := by
+  unfold addRange
+  by_cases hany : rs.any (·.key == c.key) = true
+  · rw [if_pos hany]
+    have hkeys : (rs.map fun r => if (r.key == c.key) = true then updRange c r else r).map (·.key)
+        = rs.map (·.key) := by
+      rw [List.map_map]
+      apply List.map_congr_left
+      intro r _
+      simp only [Function.comp]
+      split
+      · exact updRange_key c r
+      · rfl
+    refine ⟨by rw [hkeys]; exact h.nodup, ?_, ?_, ?_⟩
+    · intro r' hr'
+      simp only [List.mem_map] at hr'
+      obtain ⟨r, hr, rfl⟩ := hr'
+      by_cases hk : r.key = c.key
+      · simp only [hk, beq_self_eq_true, if_true, updRange_key]
+        rw [rangeOf_snoc, if_pos rfl, ← hk, ← h.isFold r hr]
+      · have hk' : ¬ c.key = r.key := fun e => hk e.symm
+        simp only [beq_iff_eq, hk, if_false]
+        rw [rangeOf_snoc, if_neg hk']
+        exact h.isFold r hr
+    · intro c' hc'
+      have hmem : ∀ r ∈ rs, ∃ r' ∈ (rs.map fun r => if (r.key == c.key) = true then updRange c r else r),
+          r'.key = r.key := by
+        intro r hr
+        refine ⟨_, List.mem_map.mpr ⟨r, hr, rfl⟩, ?_⟩
+        split
+        · exact updRange_key c r
+        · rfl
+      rcases List.mem_append.mp hc' with hc' | hc'
+      · obtain ⟨r, hr, hk⟩ := h.covers c' hc'
+        obtain ⟨r', hr', hk'⟩ := hmem r hr
+        exact ⟨r', hr', hk'.trans hk⟩
+      · simp only [List.mem_singleton] at hc'
+        subst hc'
+        simp only [List.any_eq_true] at hany
+        obtain ⟨r, hr, hk⟩ := hany
+        obtain ⟨r', hr', hk'⟩ := hmem r hr
+        exact ⟨r', hr', hk'.trans (by simpa using hk)⟩
+    · intro r' hr'
+      simp only [List.mem_map] at hr'
+      obtain ⟨r, hr, rfl⟩ := hr'
+      obtain ⟨c', hc', hk⟩ := h.onlyKeys r hr
+      refine ⟨c', by simp [hc'], ?_⟩
+      split
+      · rw [updRange_key]; exact hk
+      · exact hk
+  · rw [if_neg hany]
+    have hno : ∀ r ∈ rs, r.key ≠ c.key := by
+      intro r hr e
+      apply hany
+      simp only [List.any_eq_true]
+      exact ⟨r, hr, by simp [e]⟩
+    have hfresh : ∀ c' ∈ cs, c'.key ≠ c.key := by
+      intro c' hc' e
+      obtain ⟨r, hr, hk⟩ := h.covers c' hc'
+      exact hno r hr (hk.trans e)
+    refine ⟨?_, ?_, ?_, ?_⟩
+    · rw [List.map_append]
+      apply List.nodup_append.mpr
+      refine ⟨h.nodup, by simp, ?_⟩
+      intro a ha b hb
+      simp only [List.map_cons, List.map_nil, List.mem_singleton, updRange_key] at hb
+      subst hb
+      simp only [List.mem_map] at ha
+      obtain ⟨r, hr, rfl⟩ := ha
+      exact hno r hr
+    · intro r hr
+      rcases List.mem_append.mp hr with hr | hr
+      · have hk : ¬ c.key = r.key := fun e => hno r hr e.symm
+        rw [rangeOf_snoc, if_neg hk]
+        exact h.isFold r hr
+      · simp only [List.mem_singleton] at hr
+        subst hr
+        rw [updRange_key, rangeOf_snoc, if_pos rfl, rangeOf_fresh cs c.key hfresh]
+    · intro c' hc'
+      rcases List.mem_append.mp hc' with hc' | hc'
+      · obtain ⟨r, hr, hk⟩ := h.covers c' hc'
+        exact ⟨r, by simp [hr], hk⟩
+      · simp only [List.mem_singleton] at hc'
+        subst hc'
+        exact ⟨updRange c' { key := c'.key }, by simp, updRange_key _ _⟩
+    · intro r hr
+      rcases List.mem_append.mp hr with hr | hr
+      · obtain ⟨c', hc', hk⟩ := h.onlyKeys r hr
+        exact ⟨c', by simp [hc'], hk⟩
+      · simp only [List.mem_singleton] at hr
+        subst hr
+        exact ⟨c, by simp, (updRange_key c { key := c.key }).symm⟩
+
+theorem foldl_addRange_spec (cs pre : List Cond) (rs : List QRange) (h : RangesOf rs pre) :
+    RangesOf (cs.foldl addRange rs) (pre ++ cs) := by
+  induction cs generalizing pre rs with
+  | nil => simpa using h
+  | cons c rest ih =>
+    have := ih (pre ++ [c]) (addRange rs c) (addRange_spec rs pre c h)
+    simpa using this
+
+theorem lookForRanges_spec (q : Query) :
+    RangesOf (lookForRanges q) (q.filter fun c => isRangeOp c.op) := by
+  have h0 : RangesOf [] [] := ⟨by simp, by simp, by simp, by simp⟩
+  have := foldl_addRange_spec (q.filter fun c => isRangeOp c.op) [] [] h0
+  simpa [lookForRanges] using this
+
+
+/-! ### what the folded interval means -/
+
+def isLower : Op → Bool
+  | .gt | .ge => true
+  | _ => false
+
+def isUpper : Op → Bool
+  | .lt | .le => true
+  | _ => false
+
+def inLo (r : QRange) (m : Nat) : Bool :=
+  match lowerBoundValue r with | some lo => decide (lo ≤ (m : Int)) | none => true
+
+def inHi (r : QRange) (m : Nat) : Bool :=
+  match upperBoundValue r with | some hi => decide ((m : Int) ≤ hi) | none => true
+
+/-- a range condition as a test on a number -/
+def cSem (c : Cond) (m : Nat) : Bool :=
+  match c.operand with
+  | .int n => cmpInt c.op m n
+  | _ => false
+
+/-- well-formed range condition: numeric operand within int64; `> MaxInt64` excluded (the code's
+`t + 1` wraps: known finding `exclusive-bound-overflow`) -/
+def RangeCondOK (c : Cond) : Prop :=
+  ∃ n, c.operand = .int n ∧ n ≤ maxInt64 ∧ (c.op = .gt → n < maxInt64)
+
+def stepK (k : Str) (r : QRange) (c : Cond) : QRange := if c.key = k then updRange c r else r
+
+theorem rangeOf_eq_foldl (cs : List Cond) (k : Str) : rangeOf cs k = cs.foldl (stepK k) { key := k } := rfl
+
+theorem low_preserved_step (k : Str) (r : QRange) (c : Cond) (h : (decide (c.key = k) && isLower c.op) = false) :
+    (stepK k r c).lower = r.lower ∧ (stepK k r c).incLower = r.incLower := by
+  unfold stepK
+  by_cases hk : c.key = k
+  · simp only [hk, decide_true, Bool.true_and] at h
+    rw [if_pos hk]
+    unfold updRange
+    cases hop : c.op <;> simp_all [isLower]
+  · rw [if_neg hk]; exact ⟨rfl, rfl⟩
+
+theorem low_preserved (k : Str) (cs : List Cond) (r : QRange)
+    (h : ∀ c ∈ cs, (decide (c.key = k) && isLower c.op) = false) :
+    (cs.foldl (stepK k) r).lower = r.lower ∧ (cs.foldl (stepK k) r).incLower = r.incLower := by
+  induction cs generalizing r with
+  | nil => exact ⟨rfl, rfl⟩
+  | cons c rest ih =>
+    simp only [List.foldl_cons]
+    have h1 := low_preserved_step k r c (h c List.mem_cons_self)
+    have h2 := ih (stepK k r c) (fun c' hc' => h c' (List.mem_cons_of_mem _ hc'))
+    exact ⟨h2.1.trans h1.1, h2.2.trans h1.2⟩
+
+theorem up_preserved_step (k : Str) (r : QRange) (c : Cond) (h : (decide (c.key = k) && isUpper c.op) = false) :
+    (stepK k r c).upper = r.upper ∧ (stepK k r c).incUpper = r.incUpper := by
+  unfold stepK
+  by_cases hk : c.key = k
+  · simp only [hk, decide_true, Bool.true_and] at h
+    rw [if_pos hk]
+    unfold updRange
+    cases hop : c.op <;> simp_all [isUpper]
+  · rw [if_neg hk]; exact ⟨rfl, rfl⟩
+
+theorem up_preserved (k : Str) (cs : List Cond) (r : QRange)
+    (h : ∀ c ∈ cs, (decide (c.key = k) && isUpper c.op) = false) :
+    (cs.foldl (stepK k) r).upper = r.upper ∧ (cs.foldl (stepK k) r).incUpper = r.incUpper := by
+  induction cs generalizing r with
+  | nil => exact ⟨rfl, rfl⟩
+  | cons c rest ih =>
+    simp only [List.foldl_cons]
+    have h1 := up_preserved_step k r c (h c List.mem_cons_self)
+    have h2 := ih (stepK k r c) (fun c' hc' => h c' (List.mem_cons_of_mem _ hc'))
+    exact ⟨h2.1.trans h1.1, h2.2.trans h1.2⟩
+
+theorem inLo_congr (r r' : QRange) (h1 : r.lower = r'.lower) (h2 : r.incLower = r'.incLower) (m : Nat) :
+    inLo r m = inLo r' m := by
+  simp [inLo, lowerBoundValue, h1, h2]
+
+theorem inHi_congr (r r' : QRange) (h1 : r.upper = r'.upper) (h2 : r.incUpper = r'.incUpper) (m : Nat) :
+    inHi r m = inHi r' m := by
+  simp [inHi, upperBoundValue, h1, h2]
+
+/-- the first lower bound put on a fresh interval means what the condition says -/
+theorem inLo_first (k : Str) (r : QRange) (c : Cond) (hr1 : r.lower = none) (hr2 : r.incLower = false)
+    (hk : c.key = k) (hl : isLower c.op = true) (hc : RangeCondOK c) (m : Nat) :
+    inLo (stepK k r c) m = cSem c m := by
+  obtain ⟨n, hn, hle, hgt⟩ := hc
+  unfold stepK
+  rw [if_pos hk]
+  cases hop : c.op <;> simp [isLower, hop] at hl
+  · -- ge
+    simp [inLo, updRange, hop, lowerBoundValue, hn, operandNat, cSem, cmpInt]
+  · -- gt
+    have hne : ¬ n = maxInt64 := by have := hgt hop; omega
+    simp [inLo, updRange, hop, lowerBoundValue, hn, operandNat, cSem, cmpInt, hr2, hne]
+    omega
+
+theorem inHi_first (k : Str) (r : QRange) (c : Cond) (hr1 : r.upper = none) (hr2 : r.incUpper = false)
+    (hk : c.key = k) (hl : isUpper c.op = true) (hc : RangeCondOK c) (m : Nat) :
+    inHi (stepK k r c) m = cSem c m := by
+  obtain ⟨n, hn, hle, _⟩ := hc
+  unfold stepK
+  rw [if_pos hk]
+  cases hop : c.op <;> simp [isUpper, hop] at hl
+  · -- le
+    simp [inHi, updRange, hop, upperBoundValue, hn, operandNat, cSem, cmpInt]
+  · -- lt
+    simp [inHi, updRange, hop, upperBoundValue, hn, operandNat, cSem, cmpInt, hr2]
+    omega
+
+theorem inLo_fold (k : Str) (cs : List Cond) (r : QRange) (hr1 : r.lower = none) (hr2 : r.incLower = false)
+    (hok : ∀ c ∈ cs, RangeCondOK c)
+    (hone : (cs.filter fun c => decide (c.key = k) && isLower c.op).length ≤ 1) (m : Nat) :
+    inLo (cs.foldl (stepK k) r) m = (cs.filter fun c => decide (c.key = k) && isLower c.op).all (cSem · m) := by
+  induction cs generalizing r with
+  | nil => simp [inLo, lowerBoundValue, hr1]
+  | cons c rest ih =>
+    simp only [List.foldl_cons]
+    by_cases hc : (decide (c.key = k) && isLower c.op) = true
+    · simp only [List.filter_cons, hc, if_true, List.length_cons] at hone ⊢
+      have hrest : rest.filter (fun c => decide (c.key = k) && isLower c.op) = [] := by
+        apply List.eq_nil_of_length_eq_zero; omega
+      have hnone : ∀ c' ∈ rest, (decide (c'.key = k) && isLower c'.op) = false := by
+        intro c' hc'
+        cases h : (decide (c'.key = k) && isLower c'.op) with
+        | false => rfl
+        | true =>
+          have : c' ∈ rest.filter (fun c => decide (c.key = k) && isLower c.op) := List.mem_filter.mpr ⟨hc', h⟩
+          rw [hrest] at this; cases this
+      have hp := low_preserved k rest (stepK k r c) hnone
+      rw [inLo_congr _ _ hp.1 hp.2, hrest]
+      simp only [Bool.and_eq_true, decide_eq_true_eq] at hc
+      rw [inLo_first k r c hr1 hr2 hc.1 hc.2 (hok c List.mem_cons_self)]
+      simp
+    · have hc' : (decide (c.key = k) && isLower c.op) = false := by simpa using hc
+      simp only [List.filter_cons, hc', Bool.false_eq_true, if_false] at hone ⊢
+      have hp := low_preserved_step k r c hc'
+      exact ih (stepK k r c) (hp.1.trans hr1) (hp.2.trans hr2)
+        (fun c' h' => hok c' (List.mem_cons_of_mem _ h')) hone
+
+theorem inHi_fold (k : Str) (cs : List Cond) (r : QRange) (hr1 : r.upper = none) (hr2 : r.incUpper = false)
+    (hok : ∀ c ∈ cs, RangeCondOK c)
+    (hone : (cs.filter fun c => decide (c.key = k) && isUpper c.op).length ≤ 1) (m : Nat) :
+    inHi (cs.foldl (stepK k) r) m = (cs.filter fun c => decide (c.key = k) && isUpper c.op).all (cSem · m) := by
+  induction cs generalizing r with
+  | nil => simp [inHi, upperBoundValue, hr1]
+  | cons c rest ih =>
+    simp only [List.foldl_cons]
+    by_cases hc : (decide (c.key = k) && isUpper c.op) = true
+    · simp only [List.filter_cons, hc, if_true, List.length_cons] at hone ⊢
+      have hrest : rest.filter (fun c => decide (c.key = k) && isUpper c.op) = [] := by
+        apply List.eq_nil_of_length_eq_zero; omega
+      have hnone : ∀ c' ∈ rest, (decide (c'.key = k) && isUpper c'.op) = false := by
+        intro c' hc'
+        cases h : (decide (c'.key = k) && isUpper c'.op) with
+        | false => rfl
+        | true =>
+          have : c' ∈ rest.filter (fun c => decide (c.key = k) && isUpper c.op) := List.mem_filter.mpr ⟨hc', h⟩
+          rw [hrest] at this; cases this
+      have hp := up_preserved k rest (stepK k r c) hnone
+      rw [inHi_congr _ _ hp.1 hp.2, hrest]
+      simp only [Bool.and_eq_true, decide_eq_true_eq] at hc
+      rw [inHi_first k r c hr1 hr2 hc.1 hc.2 (hok c List.mem_cons_self)]
+      simp
+    · have hc' : (decide (c.key = k) && isUpper c.op) = false := by simpa using hc
+      simp only [List.filter_cons, hc', Bool.false_eq_true, if_false] at hone ⊢
+      have hp := up_preserved_step k r c hc'
+      exact ih (stepK k r c) (hp.1.trans hr1) (hp.2.trans hr2)
+        (fun c' h' => hok c' (List.mem_cons_of_mem _ h')) hone
+
+
+theorem range_lower_or_upper (op : Op) (h : isRangeOp op = true) : (isLower op || isUpper op) = true := by
+  cases op <;> simp_all [isRangeOp, isLower, isUpper]
+
+theorem all_and_congr {α : Type} (l : List α) (f g h : α → Bool)
+    (hp : ∀ x ∈ l, (f x && g x) = h x) : (l.all f && l.all g) = l.all h := by
+  induction l with
+  | nil => rfl
+  | cons x xs ih =>
+    simp only [List.all_cons]
+    rw [← hp x List.mem_cons_self, ← ih (fun y hy => hp y (List.mem_cons_of_mem _ hy))]
+    cases f x <;> cases g x <;> cases xs.all f <;> cases xs.all g <;> rfl
+
+/-- with at most one lower and one upper bound on `k`, the folded interval accepts exactly the
+numbers every range condition on `k` accepts -/
+theorem rangeOf_sem (cs : List Cond) (k : Str)
+    (hrange : ∀ c ∈ cs, isRangeOp c.op = true) (hok : ∀ c ∈ cs, RangeCondOK c)
+    (hlo : (cs.filter fun c => decide (c.key = k) && isLower c.op).length ≤ 1)
+    (hhi : (cs.filter fun c => decide (c.key = k) && isUpper c.op).length ≤ 1) (m : Nat) :
+    (inLo (rangeOf cs k) m && inHi (rangeOf cs k) m) =
+      (cs.filter fun c => decide (c.key = k)).all (cSem · m) := by
+  rw [rangeOf_eq_foldl, inLo_fold k cs _ rfl rfl hok hlo m, inHi_fold k cs _ rfl rfl hok hhi m]
+  simp only [List.all_filter]
+  apply all_and_congr
+  intro c hc
+  have := range_lower_or_upper c.op (hrange c hc)
+  cases h1 : decide (c.key = k) <;> cases h2 : isLower c.op <;> cases h3 : isUpper c.op <;>
+    cases h4 : cSem c m <;> simp_all
+
+/-- exchanging "one value passes all tests" and "every test is passed by some value" -/
+theorem exists_forall_swap {α β : Type} (ms : List α) (cs : List β) (P : β → α → Prop)
+    (hne : cs ≠ []) (h : ms.length ≤ 1 ∨ cs.length ≤ 1) :
+    (∃ m ∈ ms, ∀ c ∈ cs, P c m) ↔ (∀ c ∈ cs, ∃ m ∈ ms, P c m) := by
+  constructor
+  · rintro ⟨m, hm, hall⟩ c hc
+    exact ⟨m, hm, hall c hc⟩
+  · intro hall
+    rcases h with h | h
+    · obtain ⟨c0, hc0⟩ := List.exists_mem_of_ne_nil cs hne
+      obtain ⟨m, hm, _⟩ := hall c0 hc0
+      refine ⟨m, hm, ?_⟩
+      intro c hc
+      obtain ⟨m', hm', hp⟩ := hall c hc
+      have : m' = m := by
+        match ms, h, hm, hm' with
+        | [a], _, hm, hm' =>
+          simp only [List.mem_singleton] at hm hm'
+          rw [hm, hm']
+      rw [← this]; exact hp
+    · match cs, hne, h with
+      | [c0], _, _ =>
+        obtain ⟨m, hm, hp⟩ := hall c0 (by simp)
+        refine ⟨m, hm, ?_⟩
+        intro c hc
+        simp only [List.mem_singleton] at hc
+        rw [hc]; exact hp
 
 end Tmv.Index
